@@ -376,7 +376,14 @@ pub fn gen_valid(src: &mut Src, o: &TextOpts) -> TextCase {
                 2 => 32,
                 _ => src.range(1, 48),
             };
-            let digest = src.bytes(n);
+            // rarely: the largest digest that still fits the 65535-byte data limit
+            let n = if src.chance(3) {
+                f.push("ds-digest-65531");
+                65531
+            } else {
+                n
+            };
+            let digest = if n > 1000 { vec![0xabu8; n] } else { src.bytes(n) };
             let mut hx = hex(&digest);
             if src.chance(100) {
                 hx = hx.to_uppercase();
@@ -460,7 +467,12 @@ pub fn damage_text(src: &mut Src, c: &TextCase) -> (String, &'static str) {
             6 => {
                 if c.rec.rtype == T_DS && fs.len() == 8 {
                     let mut v = fs.clone();
-                    let kind = match src.below(5) {
+                    let kind = match src.below(6) {
+                        5 => {
+                            // one byte beyond the 65535-byte data limit
+                            v[7] = "cd".repeat(65532);
+                            "ds-digest-65532"
+                        }
                         0 => {
                             v[7].pop();
                             if v[7].is_empty() {
